@@ -77,16 +77,16 @@ type Step struct {
 	ID   string `json:"id"`
 	Kind string `json:"kind"` // plugin | foreach
 	// plugin
-	NoSignal bool    `json:"nosignal,omitempty"` // use the step without a cancel signal
+	NoSignal bool `json:"nosignal,omitempty"` // use the step without a cancel signal
 	// Simple: use the plugin step that declares only `success` and `error` (one regular output, one error
 	// output, no cancel signal): what holds for a step with several regular outputs must hold for it too.
-	Simple bool `json:"simple,omitempty"`
-	In       []Field `json:"in,omitempty"`       // a, s, l, o, mode, dur, on_cancel
-	WaitFor  *Expr   `json:"wait_for,omitempty"`
-	Enabled  *Expr   `json:"enabled,omitempty"`
-	StopIf   *Expr   `json:"stop_if,omitempty"`
-	Deploy   *Deploy `json:"deploy,omitempty"`
-	Closure  *int64  `json:"closure,omitempty"`
+	Simple  bool    `json:"simple,omitempty"`
+	In      []Field `json:"in,omitempty"` // a, s, l, o, mode, dur, on_cancel
+	WaitFor *Expr   `json:"wait_for,omitempty"`
+	Enabled *Expr   `json:"enabled,omitempty"`
+	StopIf  *Expr   `json:"stop_if,omitempty"`
+	Deploy  *Deploy `json:"deploy,omitempty"`
+	Closure *int64  `json:"closure,omitempty"`
 	// foreach
 	Sub         string `json:"sub,omitempty"`
 	Items       *Expr  `json:"items,omitempty"`
